@@ -147,3 +147,33 @@ impl<W: Write + Seek> Mp4Writer<W> {
         Ok(())
     }
 }
+
+// ---- verification hooks (only with `--cfg mp4_verif`): read-only views of private state ----
+
+#[cfg(mp4_verif)]
+impl<W> Mp4Writer<W> {
+    /// (mdat_pos, timescale, duration, number of tracks)
+    pub fn verif_state(&self) -> (u64, u32, u64, usize) {
+        (self.mdat_pos, self.timescale, self.duration, self.tracks.len())
+    }
+
+    pub fn verif_writer_mut(&mut self) -> &mut W {
+        &mut self.writer
+    }
+
+    pub fn verif_writer(&self) -> &W {
+        &self.writer
+    }
+
+    pub fn verif_track_trak(&self, idx: usize) -> &TrakBox {
+        self.tracks[idx].verif_trak()
+    }
+
+    pub fn verif_track_state(&self, idx: usize) -> crate::track::VerifTrackWriterState {
+        self.tracks[idx].verif_state()
+    }
+
+    pub fn verif_track_chunk_buffer(&self, idx: usize) -> &[u8] {
+        self.tracks[idx].verif_chunk_buffer()
+    }
+}
